@@ -48,8 +48,8 @@ def main(tier):
     run.require(st["rejected"] > 100 and run.nontrivial > 100, "too few rejected calls / change-delete states")
     return run.finish(
         rule="E2: breadth-first search over ALL sequences of add_source / add_comp / change_comp / del_comp (single parent by name or by rail, parent lists, same / fresh / colliding "
-             "names, none / fresh / own / colliding rails, kind changes among RLoss, Converter, ILoad, PMux, Source, both del_childs) of depth <= %d with deviation budget <= %d from 6 seed "
-             "states (single source; rails; two sources + PMux; three-input PMux with an input that is the child of another input; phases; freed node index)%s. States merged on K_full (graph with ordered adjacency + ordered registries + parameters + ghost free-index list). "
+             "names, none / fresh / own / colliding rails, kind changes among RLoss, Converter, ILoad, PMux, Source, both del_childs) of depth <= %d with deviation budget <= %d from 8 seed "
+             "states (single source; rails; two sources + PMux; three-input PMux with an input that is the child of another input; phases; freed node index; PMux at graph index 0; a rail handed over to another owner)%s. States merged on K_full (graph with ordered adjacency + ordered registries + parameters + ghost free-index list). "
              "Invariant on every distinct state: unique names, unique rails, names and rails disjoint, roots = Sources, loads are leaves, only PMux multi-parent, <= 1 PMux, every link allowed by the "
              "parent's child types, registries keyed by exactly the live names. non-trivial = distinct states first reached through change_comp or del_comp." % (D, B, "" if tier == "quick" else "; plus depth 5, budget 1 over 3 letters from 2 seeds"),
         states=st["states"], transitions=st["transitions"], traces=st["transitions"],
